@@ -21,6 +21,7 @@ void     sim_advance_noq(int ms);
 void     sim_arm_delay(int offset, int len);
 void     sim_stats(unsigned long *steps, unsigned long *switches, int *nthr);
 void     sim_jumps(unsigned long *n, unsigned long *ms);
+void     sim_jump_slack(int ms);
 long long sim_now_ms(void);
 void     sim_reset_mutex_table(void);
 
